@@ -64,6 +64,7 @@ inductive Err
   | overflow | nosource | gas | unbalanced
   | vm | overgas | votepubkey | voteamount | voteasset
   | wrongcoinbase | wrongcoinbaseasset | arbitrary | mismatchedref
+  | mismatchedvalue | mismatchedposition | position | missingentry | mismatchedassetid
   | panic   -- nil dereference of Coinbase.WitnessDestination (two coinbase inputs)
   deriving DecidableEq, Repr, Inhabited
 
@@ -75,6 +76,8 @@ def Err.name : Err → String
   | .votepubkey => "votepubkey" | .voteamount => "voteamount" | .voteasset => "voteasset"
   | .wrongcoinbase => "wrongcoinbase" | .wrongcoinbaseasset => "wrongcoinbaseasset"
   | .arbitrary => "arbitrary" | .mismatchedref => "mismatchedref" | .panic => "panic"
+  | .mismatchedvalue => "mismatchedvalue" | .mismatchedposition => "mismatchedposition"
+  | .position => "position" | .missingentry => "missingentry" | .mismatchedassetid => "mismatchedassetid"
 
 /-! ### constants (tied to consensus/general.go by Ties/C01) -/
 def maxInt64 : Nat := 9223372036854775807
